@@ -326,6 +326,18 @@ def compare_class(prog, cls):
                     _compare_bits(it, dec, ren, note, header=True)
         # ---- a decoder that refuses what is too short: not shorter than the shortest body the encoder writes on this combination
         for rj in getattr(dec, "rejects", []):
+            # (a refusal that sits under a test of a decoded field - `if not self.qos: ... return` before it - is compared on the encoder
+            # combinations that agree with that test only)
+            def contradicts(g, pol):
+                g = g.strip()
+                while g.startswith("not "):
+                    g, pol = g[4:].strip(), not pol
+                    if g.startswith("(") and g.endswith(")"):
+                        g = g[1:-1].strip()
+                return g in e_assume and bool(e_assume[g]) != bool(pol)
+            if any(contradicts(g, pol) for (g, pol, _d) in rj.get("guard", ())):
+                continue
+
             def minsize(it):
                 k = it["kind"]
                 return Lin(1) if k == "byte" else Lin(2) if k == "u16" else Lin(2, (it["sym"],)) if k == "str" else Lin(0)
